@@ -19,3 +19,4 @@ import EmuVerif.Props.C11
 #print axioms EmuVerif.Props.C11.inner_eq_dense_cx
 #print axioms EmuVerif.Props.C11.corr_offdiag_counterexample
 #print axioms EmuVerif.Props.C11.corr_diag_counterexample
+#print axioms EmuVerif.Props.C11.corr_offdiag_repaired_witness
